@@ -95,7 +95,7 @@ __CPROVER_requires(value->type == JWT_VALUE_JSON)
 __CPROVER_requires(value->json_val == NULL || (g_vj_len_b < 0x1000000 && __CPROVER_is_fresh(value->json_val, g_vj_len_b + 1) && value->json_val[g_vj_len_b] == 0))
 __CPROVER_requires(g_json_mutations < 1000)
 __CPROVER_requires(SETGET_OBS(which, value))
-__CPROVER_assigns(value->error, g_json_mutations, g_json_version, g_json_loads_flags, g_json_loaded, g_json_loaded_tracked, g_json_update_kind,
+__CPROVER_assigns(value->error, g_json_mutations, g_json_version, JSON_LOAD_GHOSTS, g_json_update_kind,
 		  which->tracked; which->tracked != NULL: __CPROVER_object_whole(which->tracked))
 __CPROVER_ensures(__CPROVER_return_value == value->error)
 /* text that does not load as an object or array: INVALID, nothing changes */
